@@ -233,6 +233,8 @@ class Normalizer:
         for f in list(repo.funcs.values()):
             self._replace_node(f, self.fold_new_constants(f))
         for f in list(repo.funcs.values()):
+            self._replace_node(f, self.modern_syntax(f))
+        for f in list(repo.funcs.values()):
             self._replace_node(f, self.project_tables(f))
         for f in list(repo.funcs.values()):
             self._replace_node(f, self.canonical_syntax(f))
@@ -249,6 +251,10 @@ class Normalizer:
         for _ in range(6):
             changed = False
             for f in list(repo.funcs.values()):
+                gen_new = self.inline_generators(f)
+                if gen_new is not None:
+                    self._replace_node(f, gen_new)
+                    changed = True
                 new = self.inline_in(f)
                 if new is not None:
                     self._replace_node(f, new)
@@ -2217,6 +2223,337 @@ class Normalizer:
         self.log.setdefault("inlined", []).append(f"{f.qual}: column look-ups of a tuple-valued table constant written as literal tables")
         return new
 
+    # ------------------------------------------------------------------------------------------ N31 / N32
+    def modern_syntax(self, f: Func) -> t.Optional[FuncNode]:
+        """N31  assignment expressions hoisted:  if (n := E) > k: ...  ->  n = E; if n > k: ...
+                while (c := E): B  ->  while True: c = E; if not c: break; B        (also in assign / return / expression
+                statements) when the named expression is the first thing the statement evaluates that can have an effect.
+        N32  match S: case P1: B1 ... case _: Bn  ->  if/elif chain: value patterns `S == V`, singletons `S is V`,
+                or-patterns, class patterns without positional sub-patterns `isinstance(S, C) [and S.a == v]`, capture /
+                wildcard as the final else, guards and-ed on.  S must be a pure path (else it is bound to a local first)."""
+        hit = [False]
+        counter = [0]
+
+        def first_walrus(e: ast.expr) -> t.Optional[ast.NamedExpr]:
+            """The named expression of e if everything evaluated before it is pure and it is evaluated unconditionally."""
+            found: t.List[t.Optional[ast.NamedExpr]] = [None]
+
+            def walk(x: ast.AST) -> bool:
+                """evaluation-order walk; returns False to stop (something impure or conditional was met first)."""
+                if isinstance(x, ast.NamedExpr):
+                    if any(isinstance(y, ast.NamedExpr) for y in ast.walk(x.value)):
+                        return False
+                    found[0] = x
+                    return False
+                if isinstance(x, (ast.Name, ast.Constant)):
+                    return True
+                if isinstance(x, ast.Attribute):
+                    return walk(x.value)
+                if isinstance(x, ast.Compare):
+                    for y in [x.left] + list(x.comparators[:1]):
+                        if not walk(y):
+                            return False
+                    return len(x.comparators) == 1
+                if isinstance(x, ast.BinOp):
+                    return walk(x.left) and walk(x.right)
+                if isinstance(x, ast.UnaryOp):
+                    return walk(x.operand)
+                if isinstance(x, ast.BoolOp):
+                    walk(x.values[0])
+                    return False  # later operands are conditional
+                if isinstance(x, ast.Subscript):
+                    return walk(x.value) and walk(x.slice)
+                if isinstance(x, ast.Slice):
+                    return all(walk(y) for y in (x.lower, x.upper, x.step) if y is not None)
+                if isinstance(x, (ast.Tuple, ast.List)):
+                    return all(walk(y) for y in x.elts)
+                if isinstance(x, ast.Call):
+                    if not walk(x.func):
+                        return False
+                    for a in list(x.args) + [k.value for k in x.keywords]:
+                        if isinstance(a, ast.Starred) or not walk(a):
+                            return False
+                    return False  # the call itself has effects: nothing after it may be hoisted in front
+                return False
+
+            walk(e)
+            return found[0]
+
+        def hoist(e: ast.expr) -> t.Tuple[t.List[ast.stmt], ast.expr]:
+            pre: t.List[ast.stmt] = []
+            for _ in range(4):
+                w = first_walrus(e)
+                if w is None:
+                    break
+                pre.append(ast.copy_location(ast.Assign(targets=[ast.Name(id=w.target.id, ctx=ast.Store())], value=w.value, lineno=getattr(w, "lineno", 0)), w))
+                e = t.cast(ast.expr, _replace_in_expr(e, w, ast.copy_location(ast.Name(id=w.target.id, ctx=ast.Load()), w)))
+                hit[0] = True
+            return pre, e
+
+        def pattern_test(p: ast.pattern, subj: ast.expr) -> t.Optional[t.Tuple[t.Optional[ast.expr], t.List[ast.stmt]]]:
+            """(test or None for irrefutable, bindings)"""
+            s_ = lambda: copy.deepcopy(subj)  # noqa: E731
+            if isinstance(p, ast.MatchValue):
+                return ast.Compare(left=s_(), ops=[ast.Eq()], comparators=[p.value]), []
+            if isinstance(p, ast.MatchSingleton):
+                return ast.Compare(left=s_(), ops=[ast.Is()], comparators=[ast.Constant(value=p.value)]), []
+            if isinstance(p, ast.MatchOr):
+                tests = []
+                for q in p.patterns:
+                    r = pattern_test(q, subj)
+                    if r is None or r[0] is None or r[1]:
+                        return None
+                    tests.append(r[0])
+                return ast.BoolOp(op=ast.Or(), values=tests), []
+            if isinstance(p, ast.MatchAs):
+                if p.pattern is None:
+                    return None if False else (None, [] if p.name is None else [ast.Assign(targets=[ast.Name(id=p.name, ctx=ast.Store())], value=s_(), lineno=0)])
+                r = pattern_test(p.pattern, subj)
+                if r is None:
+                    return None
+                return r[0], r[1] + ([ast.Assign(targets=[ast.Name(id=p.name, ctx=ast.Store())], value=s_(), lineno=0)] if p.name else [])
+            if isinstance(p, ast.MatchClass) and not p.patterns:
+                test: ast.expr = ast.Call(func=ast.Name(id="isinstance", ctx=ast.Load()), args=[s_(), p.cls], keywords=[])
+                binds: t.List[ast.stmt] = []
+                parts = [test]
+                for name, q in zip(p.kwd_attrs, p.kwd_patterns):
+                    r = pattern_test(q, ast.Attribute(value=s_(), attr=name, ctx=ast.Load()))
+                    if r is None:
+                        return None
+                    if r[0] is not None:
+                        parts.append(r[0])
+                    binds += r[1]
+                return (parts[0] if len(parts) == 1 else ast.BoolOp(op=ast.And(), values=parts)), binds
+            return None
+
+        def lower_match(s: ast.Match) -> t.Optional[t.List[ast.stmt]]:
+            pre: t.List[ast.stmt] = []
+            subj = s.subject
+            if isinstance(subj, ast.NamedExpr) and not any(isinstance(y, ast.NamedExpr) for y in ast.walk(subj.value)):
+                pre.append(ast.copy_location(ast.Assign(targets=[ast.Name(id=subj.target.id, ctx=ast.Store())], value=subj.value, lineno=s.lineno), s))
+                subj = ast.Name(id=subj.target.id, ctx=ast.Load())
+            if not _is_pure_path(subj):
+                counter[0] += 1
+                nm = f"subject__m{counter[0]}"
+                pre.append(ast.copy_location(ast.Assign(targets=[ast.Name(id=nm, ctx=ast.Store())], value=subj, lineno=s.lineno), s))
+                subj = ast.Name(id=nm, ctx=ast.Load())
+            arms: t.List[t.Tuple[t.Optional[ast.expr], t.List[ast.stmt]]] = []
+            for c in s.cases:
+                r = pattern_test(c.pattern, subj)
+                if r is None:
+                    return None
+                test, binds = r
+                if binds and (test is not None or c.guard is not None):
+                    # bindings must happen after the structural test and before the guard: nest
+                    if c.guard is not None:
+                        return None
+                if c.guard is not None:
+                    test = c.guard if test is None else ast.BoolOp(op=ast.And(), values=[test, c.guard])
+                arms.append((test, binds + list(c.body)))
+            # build the chain from the back
+            tail: t.List[ast.stmt] = []
+            for test, body in reversed(arms):
+                if test is None:
+                    tail = body
+                else:
+                    tail = [ast.copy_location(ast.If(test=test, body=body, orelse=tail), s)]
+            return pre + (tail or [ast.copy_location(ast.Pass(), s)])
+
+        def block(stmts: t.List[ast.stmt]) -> t.List[ast.stmt]:
+            out: t.List[ast.stmt] = []
+            for s in stmts:
+                if isinstance(s, (ast.FunctionDef, ast.AsyncFunctionDef, ast.ClassDef)):
+                    out.append(s)
+                    continue
+                if isinstance(s, ast.Match):
+                    low = lower_match(s)
+                    if low is not None:
+                        hit[0] = True
+                        out.extend(block(low))
+                        continue
+                    for c in s.cases:
+                        c.body = block(c.body)
+                    out.append(s)
+                    continue
+                for fld in ("body", "orelse", "finalbody"):
+                    blk = getattr(s, fld, None)
+                    if isinstance(blk, list) and blk and isinstance(blk[0], ast.stmt):
+                        setattr(s, fld, block(blk))
+                if isinstance(s, ast.Try):
+                    for h in s.handlers:
+                        h.body = block(h.body)
+                if isinstance(s, ast.If):
+                    pre, s.test = hoist(s.test)
+                    out.extend(pre)
+                elif isinstance(s, ast.While) and first_walrus(s.test) is not None and not s.orelse:
+                    pre, test = hoist(s.test)
+                    brk = ast.copy_location(ast.If(test=_negate(test), body=[ast.copy_location(ast.Break(), s)], orelse=[]), s)
+                    s.test = ast.copy_location(ast.Constant(value=True), s.test)
+                    s.body = pre + [brk] + s.body
+                elif isinstance(s, (ast.Assign, ast.AnnAssign, ast.Return, ast.Expr, ast.AugAssign)) and getattr(s, "value", None) is not None:
+                    pre, s.value = hoist(s.value)  # type: ignore[assignment]
+                    out.extend(pre)
+                elif isinstance(s, ast.Raise) and s.exc is not None:
+                    pre, s.exc = hoist(s.exc)
+                    out.extend(pre)
+                out.append(s)
+            return out
+
+        if not any(isinstance(n, (ast.NamedExpr, ast.Match)) for n in ast.walk(f.node)):
+            return None
+        new = copy.deepcopy(f.node)
+        new.body = block(list(new.body))
+        if not hit[0]:
+            return None
+        ast.fix_missing_locations(new)
+        self.log.setdefault("inlined", []).append(f"{f.qual}: match / assignment expressions lowered to if chains and assignments")
+        return new
+
+    # ------------------------------------------------------------------------------------------ N33
+    def inline_generators(self, f: Func) -> t.Optional[FuncNode]:
+        """A new generator helper consumed on the spot is the loop it abbreviates:
+            for T in gen(args): BODY          ->  gen's body with every `yield e` replaced by `T = e; BODY`
+            X = list(gen(args)) / tuple / sorted / sum / b"".join / bytes / set / min / max, `acc += ..`, `acc.extend(..)`
+                                              ->  tmp = []; for t in gen(args): tmp.append(t); X = list(tmp)
+        gen: not in the inventory, no decorator but static/classmethod, not recursive, no return, every yield an
+        expression statement with a value (`yield from E` is `for t in E: yield t`); BODY has no break / continue of its
+        own.  The interleaving of generator code and loop body is exactly that of the original."""
+        nested = self._nested_defs(f.node)
+        if not self.new_funcs and not nested:
+            return None
+        if not any(isinstance(n, ast.Call) for n in ast.walk(f.node)):
+            return None
+        hit = [False]
+        counter = [0]
+        norm = self
+
+        def generator(call: ast.AST) -> t.Optional[t.Tuple[FuncNode, t.Optional[ast.expr], bool]]:
+            if not isinstance(call, ast.Call):
+                return None
+            r = norm.resolve_helper(f, call, nested)
+            if r is None:
+                return None
+            h, hf, recv, _label = r
+            if isinstance(h, ast.AsyncFunctionDef) or any(unparse(d) not in ("staticmethod", "classmethod") for d in h.decorator_list) or h.args.kwarg:
+                return None
+            ys = [n for n in _walk_no_scopes(h) if isinstance(n, (ast.Yield, ast.YieldFrom))]
+            if not ys or len(ys) > 3:
+                return None
+            stmts_with_yield = [n for n in _walk_no_scopes(h) if isinstance(n, ast.Expr) and isinstance(n.value, (ast.Yield, ast.YieldFrom))]
+            if len(stmts_with_yield) != len(ys) or any(isinstance(y, ast.Yield) and y.value is None for y in ys):
+                return None
+            for n in _walk_no_scopes(h):
+                if isinstance(n, (ast.Return, ast.FunctionDef, ast.AsyncFunctionDef, ast.ClassDef, ast.Lambda, ast.Try, ast.With, ast.Global, ast.Nonlocal)) and n is not h:
+                    return None
+                if isinstance(n, ast.Call) and ((isinstance(n.func, ast.Name) and n.func.id == h.name) or (isinstance(n.func, ast.Attribute) and n.func.attr == h.name)):
+                    return None
+            is_method = hf is not None and hf.cls is not None and not hf.is_staticmethod and recv is not None
+            return h, recv, is_method
+
+        def own_jumps(body: t.List[ast.stmt]) -> bool:
+            stack: t.List[ast.AST] = list(body)
+            while stack:
+                n = stack.pop()
+                if isinstance(n, (ast.Break, ast.Continue)):
+                    return True
+                if isinstance(n, (ast.For, ast.AsyncFor, ast.While, ast.FunctionDef, ast.AsyncFunctionDef, ast.ClassDef, ast.Lambda)):
+                    if isinstance(n, (ast.For, ast.AsyncFor, ast.While)):
+                        stack.extend(n.orelse)
+                    continue
+                stack.extend(ast.iter_child_nodes(n))
+            return False
+
+        def expand(target: ast.expr, call: ast.Call, body: t.List[ast.stmt], at: ast.stmt) -> t.Optional[t.List[ast.stmt]]:
+            g = generator(call)
+            if g is None or own_jumps(body):
+                return None
+            h, recv, is_method = g
+            try:
+                prologue, gbody = norm._instantiate(h, call, recv, is_method)
+            except NotInlinable:
+                return None
+
+            def subst(stmts: t.List[ast.stmt]) -> t.List[ast.stmt]:
+                out: t.List[ast.stmt] = []
+                for s in stmts:
+                    if isinstance(s, ast.Expr) and isinstance(s.value, ast.Yield):
+                        out.append(ast.copy_location(ast.Assign(targets=[copy.deepcopy(target)], value=t.cast(ast.expr, s.value.value), lineno=at.lineno), at))
+                        out.extend(copy.deepcopy(body))
+                        continue
+                    if isinstance(s, ast.Expr) and isinstance(s.value, ast.YieldFrom):
+                        out.append(ast.copy_location(ast.For(target=copy.deepcopy(target), iter=s.value.value, body=copy.deepcopy(body), orelse=[], lineno=at.lineno), at))
+                        continue
+                    for fld in ("body", "orelse", "finalbody"):
+                        blk = getattr(s, fld, None)
+                        if isinstance(blk, list) and blk and isinstance(blk[0], ast.stmt):
+                            setattr(s, fld, subst(blk))
+                    out.append(s)
+                return out
+
+            return prologue + subst(gbody)
+
+        EXHAUST = {"list", "tuple", "sorted", "sum", "bytes", "bytearray", "set", "frozenset", "min", "max", "dict"}
+
+        def consumer_arg(v: t.Optional[ast.AST]) -> t.Optional[t.Tuple[ast.Call, int]]:
+            """v = consumer(.., gen(..), ..): the consumer call and the index of the generator argument."""
+            if not isinstance(v, ast.Call) or v.keywords and any(generator(k.value) for k in v.keywords):
+                return None
+            fn_ = v.func
+            known = (isinstance(fn_, ast.Name) and fn_.id in EXHAUST) or (isinstance(fn_, ast.Attribute) and fn_.attr in ("join", "extend") and _is_pure(fn_.value))
+            if not known:
+                return None
+            idx = [i for i, a in enumerate(v.args) if generator(a) is not None]
+            if len(idx) != 1 or not all(_is_pure(a) for i, a in enumerate(v.args) if i != idx[0]):
+                return None
+            return v, idx[0]
+
+        def block(stmts: t.List[ast.stmt]) -> t.List[ast.stmt]:
+            out: t.List[ast.stmt] = []
+            for s in stmts:
+                if isinstance(s, (ast.FunctionDef, ast.AsyncFunctionDef, ast.ClassDef)):
+                    out.append(s)
+                    continue
+                for fld in ("body", "orelse", "finalbody"):
+                    blk = getattr(s, fld, None)
+                    if isinstance(blk, list) and blk and isinstance(blk[0], ast.stmt):
+                        setattr(s, fld, block(blk))
+                if isinstance(s, ast.Try):
+                    for h in s.handlers:
+                        h.body = block(h.body)
+                if isinstance(s, ast.For) and not s.orelse and isinstance(s.iter, ast.Call):
+                    new = expand(s.target, s.iter, s.body, s)
+                    if new is not None:
+                        hit[0] = True
+                        out.extend(block(new))
+                        continue
+                v = getattr(s, "value", None) if isinstance(s, (ast.Assign, ast.AnnAssign, ast.Return, ast.Expr, ast.AugAssign)) else None
+                ca = consumer_arg(v)
+                if ca is None and isinstance(s, ast.AugAssign) and isinstance(s.op, ast.Add) and generator(v) is None:
+                    ca = None
+                if ca is not None:
+                    cons, i = ca
+                    counter[0] += 1
+                    tmp, elt = f"items__g{counter[0]}", f"item__g{counter[0]}"
+                    loop_body: t.List[ast.stmt] = [ast.Expr(value=ast.Call(func=ast.Attribute(value=ast.Name(id=tmp, ctx=ast.Load()), attr="append", ctx=ast.Load()), args=[ast.Name(id=elt, ctx=ast.Load())], keywords=[]))]
+                    new = expand(ast.Name(id=elt, ctx=ast.Store()), t.cast(ast.Call, cons.args[i]), loop_body, s)
+                    if new is not None:
+                        hit[0] = True
+                        out.append(ast.copy_location(ast.Assign(targets=[ast.Name(id=tmp, ctx=ast.Store())], value=ast.List(elts=[], ctx=ast.Load()), lineno=s.lineno), s))
+                        out.extend(block(new))
+                        cons.args[i] = ast.Name(id=tmp, ctx=ast.Load())
+                        out.append(s)
+                        continue
+                out.append(s)
+            return out
+
+        new_fn = copy.deepcopy(f.node)
+        new_fn.body = block(list(new_fn.body))
+        if not hit[0]:
+            return None
+        ast.fix_missing_locations(new_fn)
+        self.log.setdefault("inlined", []).append(f"{f.qual}: generator helper(s) consumed on the spot written as the loops they abbreviate")
+        return new_fn
+
     # ------------------------------------------------------------------------------------------ N26
     def expand_star_args(self, f: Func) -> t.Optional[FuncNode]:
         """g(a, *T, k=v)  ->  g(a, t1, t2, t3, k=v)   when T is a tuple / list display or a NamedTuple construction of the
@@ -2630,6 +2967,20 @@ def _replace_expr(s: ast.stmt, old: ast.AST, new: ast.expr) -> ast.stmt:
         elif isinstance(val, list):
             setattr(s2, name, [_copy_spine(v, old) if isinstance(v, ast.AST) else v for v in val])
     return t.cast(ast.stmt, R().visit(s2))
+
+
+def _replace_in_expr(e: ast.AST, old: ast.AST, new: ast.expr) -> ast.AST:
+    """e with the node `old` (by identity) replaced by `new`; nodes on the way are modified in place."""
+    if e is old:
+        return new
+
+    class R(ast.NodeTransformer):
+        def visit(self, node: ast.AST) -> t.Any:
+            if node is old:
+                return new
+            return self.generic_visit(node)
+
+    return R().visit(e)
 
 
 def _copy_spine(node: ast.AST, old: ast.AST) -> ast.AST:
